@@ -136,9 +136,17 @@ def disk_part(ctx, batch, N):
                 if nb in auth:
                     return f"(VInt {c_Z(auth[nb])}, 0%nat)"
                 return f"(VInt {c_Z(0)}, {other.setdefault(nb, len(other) + 1)}%nat)"
+            script = []
+            if rng.random() < 0.5:
+                # a verified hit FIRST, then the payload altered with the signature intact, then the read again
+                k0 = rng.choice(keys)
+                script = [("set", k0), ("get", k0), (rng.choice(["flip", "trunc"]), k0), ("get", k0)]
             for _ in range(rng.randint(2, 10)):
-                k = rng.choice(keys)
-                kind = rng.choice(["set", "set", "get", "get", "torn", "flip", "trunc", "ptype", "sig", "sigtype", "dropsig", "droppayload"])
+                if script:
+                    kind, k = script.pop(0)
+                else:
+                    k = rng.choice(keys)
+                    kind = rng.choice(["set", "set", "get", "get", "torn", "flip", "trunc", "ptype", "sig", "sigtype", "dropsig", "droppayload"])
                 trace.append((kind, k))
                 try:
                     if kind == "set":
